@@ -1,5 +1,6 @@
 import PrimaiteModel.Model.Basic
 import PrimaiteModel.Model.Link
+import PrimaiteModel.Model.LinkAccept
 open Primaite Primaite.Link
 
 /-
@@ -11,6 +12,8 @@ Line protocol (one answer line per input line):
   act <event tokens>             one top-level action (a forest)          -> records ` | ` dump
   dump                                                                    -> dump
   reset                          (handled by runDriver)                   -> ok
+  far <h|r|s> <en> <mac> <ip> <plen> <dstMac> <dstIp> <ttl> <ownIp,ownIp,...|->
+                                 answer of the far interface's receive_frame (C08's acceptance model) -> 1 | 0
 
 event tokens:   S k a s acc [ events ]     wired send on link k from end A (a=1) / B (a=0), size s, far answer acc
                 W c i s [ events ]         wireless send on channel c from interface i
@@ -95,6 +98,17 @@ def step' (n : Net) : List String → Net × String
       let r := step n (.act evs)
       (r.1, " ".intercalate (r.2.map showRec) ++ " | " ++ dump r.1)
     | _ => (n, "bad-op")
+  | ["far", kind, en, mac, ip, plen, dmac, dip, ttl, own] =>
+    let kind? : Option Forward.Kind := match kind with
+      | "h" => some .host | "r" => some .router | "s" => some .switch | _ => none
+    let own? := if own == "-" then some [] else parseNats (own.splitOn ",")
+    match kind?, parseBool en, mac.toNat?, ip.toNat?, plen.toNat?, dmac.toNat?, dip.toNat?, ttl.toInt?, own? with
+    | some kind, some en, some mac, some ip, some plen, some dmac, some dip, some ttl, some own =>
+      let nd := farNode kind (own.map (BitVec.ofNat 32))
+      let ifc : Forward.Iface := { mac, ip := BitVec.ofNat 32 ip, plen, enabled := en }
+      let f : Forward.Frame := { id := 0, srcMac := 0, dstMac := dmac, srcIp := 0, dstIp := BitVec.ofNat 32 dip, ttl, pl := .dataReq }
+      (n, showBool (farAnswer nd ifc f))
+    | _, _, _, _, _, _, _, _, _ => (n, "bad-op")
   | ["dump"] => (n, dump n)
   | _ => (n, "bad-op")
 
